@@ -12,6 +12,9 @@ var lim = kernel.Limits{MaxSteps: 400, SettleSteps: 300}
 func Specs() []kernel.Spec {
 	return []kernel.Spec{
 		{Prop: "C08", Mk: New(Mode{Prop: "C08", Faults: true, BadReqs: true, Reads: true, Submits: true, Oracle: oracleC08}), Limits: lim},
+		{Prop: "C01", Mk: New(Mode{Prop: "C01", Submits: true, LostReply: true, Oracle: oracleC01}), Limits: lim},
+		{Prop: "C06", Mk: New(Mode{Prop: "C06", Submits: true, Reads: true, Oracle: oracleC06, Final: finalC06}), Limits: lim},
+		{Prop: "C07", Mk: New(Mode{Prop: "C07", Submits: true, Reads: true, BadReqs: true, Boundary: true, ReadWeights: []int{1, 0, 0, 8, 3, 0}, Oracle: oracleC07}), Limits: lim},
 		{Prop: "C08sweep", Mk: NewSweep(), Limits: lim, Cases: len(SweepCases())},
 	}
 }
